@@ -97,3 +97,9 @@ claim("C07",
       "Decides which access paths have the enforcement at all: for every Call*/Nullsafe*/IndexExpression node, each member lookup on an object seen from outside or on a class named in the source reaches its use only after its modifier was consulted; static lookups that return a bare value are violations by construction; every property store looks at the declared type on every path; parameter binding and function/method return consult Types.Is; every object creation from a class statement follows the abstract-class rejection and concrete class statements validate abstract methods. 19 sites of the pinned tree fail (static members, callable arrays, private==protected predicate) and are listed as known findings with witnesses. Whether Types.Is and the hierarchy predicate give the right answer for each value is not decided.",
       "access-path nodes selected by type name and printed in evidence; self::/static::/parent:: paths are treated as inside the class for the visibility rule; helper functions that test the modifier of a parameter are summarised",
       "DESIGN.md §2 C07")
+
+claim("C16",
+      "field-coverage cross-check between each special handler of the AOT generator and the struct type it is registered for (field reads through selectors, accessor methods, FieldByName literals, whole-node hand-offs); registration/assertion agreement; error-totality of the reflective emitter; re-attachment check for declarations the parser keeps outside the AST",
+      "Decides the structural part of 'a construct the generator cannot translate is reported as a compile error, never silently dropped': every special handler reads every content field of its node type (so a field added to a node with a handler cannot vanish from compiled programs), each handler asserts the type it is registered for, the reflective route returns an error for unexported fields, unsupported kinds and route-less nodes, and declarations registered in the VM by the parser are re-attached for every file shape (two listed findings: classes of files without a namespace, and all interfaces, are absent from compiled programs). Equality of compiled and interpreted behaviour needs execution and is not decided.",
+      "handler table = the single specialHandlers map literal; run-time-only fields tabled with reasons; a node handed whole to a helper counts as fully read",
+      "DESIGN.md §2 C16")
